@@ -126,7 +126,8 @@ def gen_template(r, codec):
         elif k == 6:
             # a character that the file's codec does not have, written as an escape (ASCII) in a def default
             nm = "e%d" % len(parts)
-            parts.append("<%%def name=\"%s(a='\\U0001f600%s')\">{${a}}</%%def>${%s()}" % (nm, v, nm))
+            star = "*, " if len(parts) % 2 else ""   # ... also of a keyword-only parameter
+            parts.append("<%%def name=\"%s(%sa='\\U0001f600%s')\">{${a}}</%%def>${%s()}" % (nm, star, v, nm))
             exp.append("{\U0001f600" + v + "}")
         elif k == 4:
             parts.append("\n%% if True:\n%s\n%% endif\n" % v)
